@@ -128,23 +128,45 @@ impl<T: DeepCopy + DeserializeInner, const N: usize> DeserializeHelper<Deep> for
     #[inline(always)]
     fn _deserialize_full_inner_impl(backend: &mut impl ReadWithPos) -> deser::Result<Self> {
         let mut res = MaybeUninit::<[T; N]>::uninit();
-        unsafe {
-            for item in &mut res.assume_init_mut().iter_mut() {
-                std::ptr::write(item, T::_deserialize_full_inner(backend)?);
+        let items = res.as_mut_ptr() as *mut T;
+        for i in 0..N {
+            match T::_deserialize_full_inner(backend) {
+                // SAFETY: i < N, so the item lies within the array.
+                Ok(item) => unsafe { items.add(i).write(item) },
+                Err(e) => {
+                    // SAFETY: the first i items have been initialized above;
+                    // they must be dropped, or their memory would be leaked.
+                    for j in 0..i {
+                        unsafe { items.add(j).drop_in_place() };
+                    }
+                    return Err(e);
+                }
             }
-            Ok(res.assume_init())
         }
+        // SAFETY: all N items have been initialized.
+        Ok(unsafe { res.assume_init() })
     }
     #[inline(always)]
     fn _deserialize_eps_inner_impl<'a>(
         backend: &mut SliceWithPos<'a>,
     ) -> deser::Result<<Self as DeserializeInner>::DeserType<'a>> {
         let mut res = MaybeUninit::<<Self as DeserializeInner>::DeserType<'_>>::uninit();
-        unsafe {
-            for item in &mut res.assume_init_mut().iter_mut() {
-                std::ptr::write(item, T::_deserialize_eps_inner(backend)?);
+        let items = res.as_mut_ptr() as *mut <T as DeserializeInner>::DeserType<'a>;
+        for i in 0..N {
+            match T::_deserialize_eps_inner(backend) {
+                // SAFETY: i < N, so the item lies within the array.
+                Ok(item) => unsafe { items.add(i).write(item) },
+                Err(e) => {
+                    // SAFETY: the first i items have been initialized above;
+                    // they must be dropped, or their memory would be leaked.
+                    for j in 0..i {
+                        unsafe { items.add(j).drop_in_place() };
+                    }
+                    return Err(e);
+                }
             }
-            Ok(res.assume_init())
         }
+        // SAFETY: all N items have been initialized.
+        Ok(unsafe { res.assume_init() })
     }
 }
